@@ -1,6 +1,7 @@
 //! `bsv <sub-command> [--seed S] [--n N] [--out DIR] [--replay FILE] ...`
 //! Sub-commands are the files of src/props/ (see build.rs).
 pub mod util;
+pub mod live;
 mod props { include!(concat!(env!("OUT_DIR"), "/dispatch.rs")); }
 
 fn main() {
